@@ -472,7 +472,7 @@ def units(tier, seed):
             if 'D1only' in prog.tags or ('heavy' in prog.tags and tier == 'quick'):
                 continue
         Pp = 1 if ('clip' in prog.tags or prog.name in ('absolute', 'sign') or 'slow' in prog.tags or 'Dmax2' in prog.tags) else P
-        Dp = 2 if ('slow' in prog.tags or 'Dmax2' in prog.tags) else D     # (Dmax2: UTPM.eig supports D <= 2 only; svd beyond D = 2 exceeds the time limit)
+        Dp = 2 if ('slow' in prog.tags or 'Dmax2' in prog.tags or 'D2only' in prog.tags) else D     # (Dmax2: UTPM.eig supports D <= 2 only; svd beyond D = 2 exceeds the time limit; D2only: the order-2 identity of complex inv/solve sits at the solver's time limit)
         out.append(Unit('C03/%s/D%d,P%d' % (prog.name, Dp, Pp), 'symx.props.c03', 'h_prog',
                         {'pname': prog.name, 'D': Dp, 'P': Pp},
                         dict(opts, unit_timeout=2400, path_budget=2000) if 'slow' in prog.tags
